@@ -21,6 +21,7 @@ import (
 	"github.com/caddyserver/caddy/v2"
 	"github.com/caddyserver/caddy/v2/modules/caddyhttp/reverseproxy"
 	"github.com/caddyserver/certmagic"
+	"go.uber.org/zap"
 )
 
 // StepObs is what the harness observes after one operation.
@@ -33,6 +34,7 @@ type StepObs struct {
 	MPool   [NAddr]int     // references in the guest-module usage pool, per key
 	Writers [NAddr]int     // references in caddy's writers pool: [0] = stderr (relative to the start of the case), [k] = probe writer k
 	PP, PS  []int          // observed provisioning / start order (prefix, failing app last)
+	DLogger int            // whose default log is the process default logger (caddy.Log()): context number + 1; 0 = the logger in place when the case began
 	DStor   int            // which storage certmagic.Default.Storage is (0 caddy.DefaultStorage, k probe storage k)
 	Alive   []int          // context numbers of configurations that are NOT running (rejected, replaced, validated, stopped) whose context.Context has not been cancelled
 	Err     string         // error text (diagnostics only)
@@ -374,6 +376,8 @@ func RunCase(ops []Op, enforce bool) []StepObs {
 	time.Sleep(0)
 	stderr0 := caddy.VerifWritersSnapshot()["std:err"]
 	certmagic.Default.Storage = caddy.DefaultStorage // process-global: every case starts from the same value
+	// every openLogs makes a new *zap.Logger the process default: its identity tells whose it is
+	loggerOf := map[*zap.Logger]int{caddy.Log(): 0}
 
 	var out []StepObs
 	var running *Cfg // the harness's own account of what should be running (spec)
@@ -497,6 +501,13 @@ func RunCase(ops []Op, enforce bool) []StepObs {
 		mu.Unlock()
 		sort.Ints(o.Alive)
 		o.DStor = DefaultStorageKey()
+		if who, ok := loggerOf[caddy.Log()]; ok {
+			o.DLogger = who
+		} else {
+			// a logger we have not seen before was installed by this operation
+			loggerOf[caddy.Log()] = i + 1
+			o.DLogger = i + 1
+		}
 		ws := caddy.VerifWritersSnapshot()
 		o.Writers[0] = ws["std:err"] - stderr0
 		for k := 1; k < NAddr; k++ {
